@@ -132,6 +132,12 @@ func (j *J) print(sb *strings.Builder, st *Style) {
 		sb.WriteString(ws(st) + "]")
 	case "obj":
 		ms := j.Members
+		if j.Ty != nil && j.Ty.Class == "any" && st != nil && st.Shuffle {
+			// the value of an any is stored as text: member order inside it is significant
+			st2 := *st
+			st2.Shuffle = false
+			st = &st2
+		}
 		if st != nil && st.Shuffle && st.R != nil && len(ms) > 1 {
 			ms = append([]*Member(nil), ms...)
 			for i := len(ms) - 1; i > 0; i-- {
@@ -200,6 +206,9 @@ func (g *Gen) Object(s *Schema, depth int) *J {
 		chance := g.PropChance
 		if depth >= g.MaxDepth && g.heavy(p.Ty) {
 			continue
+		}
+		if g.Canonical && p.Ty.Class == "any" && p.Ty.PB {
+			continue // google.protobuf.Any needs the WithProtoToAny codec option
 		}
 		if depth > 0 {
 			chance = chance * 3 / 2
@@ -464,7 +473,14 @@ func (g *Gen) Scalar(k Kind) *J {
 		return Str(fmt.Sprintf("%04d-%02d-%02d", y, m, d))
 	case "KDecimal":
 		var lit string
-		switch g.R.Intn(4) {
+		pick := g.R.Intn(4)
+		if g.Canonical && pick == 0 {
+			pick = 1
+			if g.R.Bool() {
+				return Str(vh.Pick(g.R, []string{"0", "1.50", "-0.001", "100", "123456789012345678901234567890.123456789", "-7"}))
+			}
+		}
+		switch pick {
 		case 0:
 			lit = vh.Pick(g.R, []string{"0", "1.50", "-0.001", "100", "123456789012345678901234567890.123456789", "1e3", "-1E-2", ".5", "5."})
 		default:
@@ -485,7 +501,9 @@ func (g *Gen) Scalar(k Kind) *J {
 		}
 		if !g.Canonical && g.R.Chance(40) {
 			off := g.R.Range(-14*60, 14*60) * 60
-			t = t.In(time.FixedZone("", off))
+			if l := t.In(time.FixedZone("", off)); l.Year() >= 1 && l.Year() <= 9999 {
+				t = l
+			}
 		}
 		return Str(t.Format(time.RFC3339Nano))
 	}
